@@ -305,6 +305,9 @@ func refFK(d Dialect, a, b *ForeignKey) schema.ChangeKind {
 // makes no demand for the pair. Generators re-draw such pairs; they are never counted as held.
 func Ambiguous(a, b *Model) string {
 	d := a.Dialect
+	if why := ambiguousNames(a, b); why != "" {
+		return why
+	}
 	if a.Charset != "" && b.Charset == "" || a.Collation != "" && b.Collation == "" {
 		return "schema charset dropped (inherits the server default, unknown to the differ)"
 	}
